@@ -1,5 +1,8 @@
 import SJ.Props.C13
+import SJ.Props.Typed
 #print axioms SJ.Props.C13.c13_read
 #print axioms SJ.Props.C13.c13_read_error_class
 #print axioms SJ.Props.C13.c13_write_prefix
 #print axioms SJ.Props.C13.c13_write_is_prefix
+#print axioms SJ.Props.Typed.c13_typed_fault
+#print axioms SJ.Props.C13.c13_buffers_utf8
